@@ -32,6 +32,9 @@ m = {
     "engines": [
         {"name": "E1-model", "path": "hv/model.py", "serves_properties": [c["property_id"] for c in checks], "kind_free_text": "AST program model, anchors by observable names"},
         {"name": "E3-alg", "path": "hv/alg.py", "serves_properties": ["C02","C03","C04","C06","C07","C09","C10","C11","C16","C18","C19","C20"], "kind_free_text": "rational-function normal form with formal differentiation (deterministic rewriting, no solver)"},
+        {"name": "stores", "path": "hv/stores.py", "serves_properties": ["C01","C05","C08","C09","C10","C11","C12","C15","C17","C19"], "kind_free_text": "guarded effects of a function with the control-flow spelling normalised away (guard clauses, unrolled literal loops, folded names, spliced helpers)"},
+        {"name": "elements", "path": "hv/elements.py", "serves_properties": ["C01","C17"], "kind_free_text": "index-aligned element semantics of zip/enumerate/range/comprehension iterables"},
+        {"name": "shape", "path": "hv/shape.py", "serves_properties": [c["property_id"] for c in checks], "kind_free_text": "statement-multiset distance of a function to the tree the rule instances were confirmed on; a structural rule failing inside a restructured function is reported undecided (exit 2), never for algebraic residuals"},
         {"name": "extract", "path": "hv/extract.py", "serves_properties": ["C02","C03","C06","C07","C09","C10","C18","C20"], "kind_free_text": "abstract evaluator: conditional constant propagation of source expressions into the E3 domain"},
     ],
     "checks": checks,
